@@ -70,6 +70,8 @@ class Monitor:
         self.nset = 0
         self.nsteps = 0
         self.a_begun = []
+        self.a_next = 0          # time of A's next step as announced by its last reply (A is time-based)
+        self.pending_time = {}
 
     def request(self, sid, kind, time):
         if sid not in self.allowed:
@@ -80,7 +82,16 @@ class Monitor:
         if sid not in self.allowed:
             self.eng.alarm('C16.notrefused', f'set_data by {sid} (no async_requests connection) was accepted')
             return
-        self.pending[(target, f'{sid}.e')] = val
+        key = (target, f'{sid}.e')
+        if key in self.pending and target == 'A':
+            # an undelivered value is about to be overwritten: fine if A has no step up to now (the agent is faster than A),
+            # a lost value if A still has to perform a step at or before this time - that step was "A's next step" for the old value
+            ta = self.inflight.get('A', self.a_next)
+            if ta is not None and bool(ta <= time):
+                self.eng.alarm('C16.lost', f'value {self.pending[key]} set by {sid} at {self.pending_time[key]} is overwritten at {time} before A performed its '
+                               f'step at {ta}: it is never delivered', {'fp': ['lost']})
+        self.pending[key] = val
+        self.pending_time[key] = time
 
     def got(self, sid, time, data):
         if sid not in self.allowed:
@@ -117,6 +128,8 @@ class Monitor:
             self.inflight[sid] = time
         if ev == 'reply' and f == 'step':
             self.inflight.pop(sid, None)
+            if sid == 'A':
+                self.a_next = payload if (payload is not None and bool(payload < CTX['until'])) else None
 
 
 def async_run(n_agents, unconnected, cfg, data_edge=False, triggered=False, feeder=False):
@@ -151,7 +164,9 @@ def async_run(n_agents, unconnected, cfg, data_edge=False, triggered=False, feed
                     ents[b] = w.start('G', sim_id=b, typ='event-based' if triggered else 'time-based').M()
                     if triggered:
                         w.connect(clock, ents[b], ('op', 'it'))
-                    if data_edge:
+                    if data_edge == 'shift':
+                        w.connect(a, ents[b], ('op', 'im'), async_requests=True, time_shifted=True, initial_data={'op': 'I'})
+                    elif data_edge:
                         w.connect(a, ents[b], ('op', 'im'), async_requests=True)
                     else:
                         w.connect(a, ents[b], async_requests=True)
@@ -199,7 +214,7 @@ def jobs(tier):
         for sync in syncs:
             for cache in caches:
                 cfg = {'until': until, 'K': K, 'cache': cache, 'lazy': lazy, 'D': D, 'sync': sync, 'requests_per_step': rps, 'no_get': no_get}
-                j = {'id': f"async|n={n_agents}|x={unconnected}|K={K}|until={until}|sync={''.join(sync) or '-'}|cache={int(cache)}|de={int(data_edge)}|rps={rps}|D={D}|ng={int(no_get)}|lazy={int(lazy)}|trig={int(triggered)}|feed={int(feeder)}",
+                j = {'id': f"async|n={n_agents}|x={unconnected}|K={K}|until={until}|sync={''.join(sync) or '-'}|cache={int(cache)}|de={data_edge if isinstance(data_edge, str) else int(data_edge)}|rps={rps}|D={D}|ng={int(no_get)}|lazy={int(lazy)}|trig={int(triggered)}|feed={int(feeder)}",
                      'harness': 'vk.kernels.c16:async_run',
                      'params': {'n_agents': n_agents, 'unconnected': unconnected, 'cfg': cfg, 'data_edge': data_edge, 'triggered': triggered, 'feeder': feeder},
                      'budget_s': 300}
@@ -220,6 +235,8 @@ def jobs(tier):
     add(1, None, 2, 3, [[], ['A', 'B', 'T']], caches=(True,), lazy=True, triggered=True, no_get=True, split=16)
     # a persistent source feeds the attribute the agent writes (sparse set_data calls must not be remembered)
     add(1, None, 3, 3, [['A', 'B', 'F'], ['F']], caches=(False, True), feeder=True, no_get=True)
+    # the async pair also carries a time-shifted data flow, A is held back by a (slow) feeder
+    add(1, None, 3, 3, [['A', 'B'], ['B'], []], caches=(True,), feeder=True, data_edge='shift', no_get=True)
     add(1, 'none', 2, 2, [[], ['A', 'B', 'X']], caches=(True,))
     add(1, 'plain', 2, 2, [[], ['A', 'B', 'X']], caches=(True,))
     if not q:
